@@ -383,6 +383,47 @@ scenarios! {
             acc
         })
     }
+    "wide frames and formatting: Sinc / Linear / Converter over 16-channel frames; Debug of the stateful types written into a non-allocating sink" => |seed, n| {
+        struct Sink(u64);
+        impl std::fmt::Write for Sink {
+            fn write_str(&mut self, s: &str) -> std::fmt::Result {
+                self.0 = self.0.wrapping_add(s.len() as u64);
+                Ok(())
+            }
+        }
+        steady(|| {
+            let wide: Vec<[f32; 16]> = (0..n + 40).map(|i| core::array::from_fn(|c| ((i * 7 + c * 3 + seed as usize) % 97) as f32 / 97.0 - 0.5)).collect();
+            let nine: Vec<[i16; 9]> = (0..n + 40).map(|i| core::array::from_fn(|c| ((i * 5 + c) % 2001) as i16 - 1000)).collect();
+            (
+                Converter::scale_playback_hz(signal::from_iter(wide), Sinc::new(Fixed::from(vec![[0.0f32; 16]; 8])), 0.75),
+                Converter::scale_playback_hz(signal::from_iter(nine), Linear::new([0i16; 9], [0i16; 9]), 1.5),
+                Rms::<[f32; 2], _>::new(Fixed::from(vec![[0.0f32; 2]; 5])),
+                Bounded::from(vec![0u32; 4]),
+                Detector::<[f32; 2], _>::peak(3.0, 9.0),
+                Sink(0),
+                seed | 1,
+            )
+        }, |st| {
+            use std::fmt::Write;
+            let (a, b, rms, rb, det, sink, s) = st;
+            let mut acc = 0u64;
+            for k in 0..n {
+                let x = a.next();
+                let y = b.next();
+                mixf(&mut acc, x[0] as f64 + x[15] as f64);
+                mix(&mut acc, y[8] as u16 as u64);
+                let f = [fv(s) as f32, fv(s) as f32];
+                let _ = rms.next(f);
+                let _ = det.next(f);
+                let _ = rb.push(k as u32);
+                if k % 3 == 0 {
+                    // a history that is not a whole number of windows: the ring is rotated when it is printed
+                    let _ = write!(sink, "{:?} {:?} {:?}", rms, rb, f);
+                }
+            }
+            acc ^ sink.0
+        })
+    }
     "window functions: Hann, Rectangle (f64, f32)" => |seed, n| {
         steady(|| seed | 1, |s| {
             let mut acc = 0u64;
